@@ -19,6 +19,10 @@ const (
 	opClose
 	opWgAdd
 	opWgWait
+	opLock
+	opUnlock
+	opRLock
+	opRUnlock
 )
 
 type syncOp struct {
@@ -26,6 +30,7 @@ type syncOp struct {
 	ch    *ChanV
 	val   Value
 	wg    *wgState
+	mu    *mutexState
 	delta int
 	// results
 	recvVal Value
@@ -36,6 +41,7 @@ type syncOp struct {
 
 type wgState struct {
 	counter int
+	vc      VC
 }
 
 type Thread struct {
@@ -49,6 +55,7 @@ type Thread struct {
 	args      []Value
 	depth     int
 	callStack []string
+	vc        VC
 }
 
 type Sched struct {
@@ -79,7 +86,13 @@ func (ex *Exec) runThreads() *pathAbort {
 
 func (ex *Exec) newThread(fv *FuncV, args []Value) *Thread {
 	s := ex.sched
-	th := &Thread{id: len(s.threads), resume: make(chan bool), fv: fv, args: args}
+	th := &Thread{id: len(s.threads), resume: make(chan bool), fv: fv, args: args, vc: VC{}}
+	if ex.cur != nil {
+		// go statement: everything the parent did so far happens before the child
+		th.vc = ex.cur.vc.copy()
+		ex.cur.tick()
+	}
+	th.vc[th.id] = 1
 	s.threads = append(s.threads, th)
 	go func() {
 		if !<-th.resume {
@@ -163,7 +176,39 @@ func (ex *Exec) schedLoop(main *Thread) *pathAbort {
 				continue
 			}
 			op := th.pending
+			if op.kind == opUnlock || op.kind == opRUnlock {
+				m := op.mu
+				if op.kind == opUnlock {
+					if !m.writer {
+						ex.cur = th
+						ex.reportFromSched(op, "sync: unlock of unlocked mutex")
+						return &pathAbort{abPathEnd, "unlock of unlocked mutex"}
+					}
+					m.writer = false
+					m.wvc = th.vc.copy()
+				} else {
+					if m.readers <= 0 {
+						ex.cur = th
+						ex.reportFromSched(op, "sync: RUnlock of unlocked RWMutex")
+						return &pathAbort{abPathEnd, "RUnlock of unlocked RWMutex"}
+					}
+					m.readers--
+					m.rvc.join(th.vc)
+				}
+				th.tick()
+				th.pending = nil
+				if ab := ex.runThread(th); ab != nil {
+					return ab
+				}
+				immediate = true
+				break
+			}
 			if op.kind == opWgAdd && op.delta < 0 {
+				if op.wg.vc == nil {
+					op.wg.vc = VC{}
+				}
+				op.wg.vc.join(th.vc)
+				th.tick()
 				op.wg.counter += op.delta
 				if op.wg.counter < 0 {
 					ex.cur = th
@@ -215,6 +260,14 @@ func (ex *Exec) schedLoop(main *Thread) *pathAbort {
 				if op.wg.counter == 0 {
 					ts = append(ts, transition{kind: "wgwait", a: th})
 				}
+			case opLock:
+				if !op.mu.writer && op.mu.readers == 0 {
+					ts = append(ts, transition{kind: "lock", a: th})
+				}
+			case opRLock:
+				if !op.mu.writer {
+					ts = append(ts, transition{kind: "rlock", a: th})
+				}
 			}
 		}
 		if len(ts) == 0 {
@@ -242,13 +295,30 @@ func (ex *Exec) schedLoop(main *Thread) *pathAbort {
 		}
 		t := ts[k]
 		switch t.kind {
+		case "lock":
+			t.a.vc.join(t.a.pending.mu.wvc)
+			t.a.vc.join(t.a.pending.mu.rvc)
+			t.a.pending.mu.writer = true
+			t.a.pending = nil
+			if ab := ex.runThread(t.a); ab != nil {
+				return ab
+			}
+		case "rlock":
+			t.a.vc.join(t.a.pending.mu.wvc)
+			t.a.pending.mu.readers++
+			t.a.pending = nil
+			if ab := ex.runThread(t.a); ab != nil {
+				return ab
+			}
 		case "rendezvous":
 			t.b.pending.recvVal = t.a.pending.val
 			t.b.pending.recvOK = true
-			t.a.pending, t.b.pending = nil, t.b.pending
-			rp := t.b.pending
-			t.b.pending = nil
-			_ = rp
+			// the send happens before the receive completes and vice versa (unbuffered)
+			t.a.vc.join(t.b.vc)
+			t.b.vc = t.a.vc.copy()
+			t.a.tick()
+			t.b.tick()
+			t.a.pending, t.b.pending = nil, nil
 			if ab := ex.runThread(t.a); ab != nil {
 				return ab
 			}
@@ -258,6 +328,8 @@ func (ex *Exec) schedLoop(main *Thread) *pathAbort {
 		case "bufsend":
 			op := t.a.pending
 			op.ch.buf = append(op.ch.buf, op.val)
+			op.ch.bufVC = append(op.ch.bufVC, t.a.vc.copy())
+			t.a.tick()
 			t.a.pending = nil
 			if ab := ex.runThread(t.a); ab != nil {
 				return ab
@@ -267,6 +339,10 @@ func (ex *Exec) schedLoop(main *Thread) *pathAbort {
 			op.recvVal = op.ch.buf[0]
 			op.recvOK = true
 			op.ch.buf = op.ch.buf[1:]
+			if len(op.ch.bufVC) > 0 {
+				t.a.vc.join(op.ch.bufVC[0])
+				op.ch.bufVC = op.ch.bufVC[1:]
+			}
 			t.a.pending = nil
 			if ab := ex.runThread(t.a); ab != nil {
 				return ab
@@ -275,6 +351,9 @@ func (ex *Exec) schedLoop(main *Thread) *pathAbort {
 			op := t.a.pending
 			op.recvVal = nil
 			op.recvOK = false
+			if op.ch.closeVC != nil {
+				t.a.vc.join(op.ch.closeVC)
+			}
 			t.a.pending = nil
 			if ab := ex.runThread(t.a); ab != nil {
 				return ab
@@ -291,6 +370,8 @@ func (ex *Exec) schedLoop(main *Thread) *pathAbort {
 				return &pathAbort{abPathEnd, "close of closed channel"}
 			}
 			op.ch.closed = true
+			op.ch.closeVC = t.a.vc.copy()
+			t.a.tick()
 			t.a.pending = nil
 			if ab := ex.runThread(t.a); ab != nil {
 				return ab
@@ -303,6 +384,9 @@ func (ex *Exec) schedLoop(main *Thread) *pathAbort {
 				return ab
 			}
 		case "wgwait":
+			if t.a.pending.wg.vc != nil {
+				t.a.vc.join(t.a.pending.wg.vc)
+			}
 			t.a.pending = nil
 			if ab := ex.runThread(t.a); ab != nil {
 				return ab
@@ -336,6 +420,10 @@ func (ex *Exec) describeBlocked() string {
 				what = fmt.Sprintf("recv on chan#%d", th.pending.ch.id)
 			case opWgWait:
 				what = fmt.Sprintf("WaitGroup.Wait (counter=%d)", th.pending.wg.counter)
+			case opLock:
+				what = "Mutex.Lock"
+			case opRLock:
+				what = "RWMutex.RLock"
 			}
 		}
 		s += fmt.Sprintf("goroutine %d blocked at %s; ", th.id, what)
